@@ -17,8 +17,8 @@ CLAIMED = {
  "C01": ("commit-path guard analysis with shape-recognised verifier/prover functions, provenance of verifier inputs, who-may-write census over entry points",
          "every write of storage.MsgPostProof lies, on every nil-error return, behind the nil result of the call whose callee returns nil only after the Merkle-library verification, and behind msg.ToProve == stored challenge; the verifier is fed the stored challenge and the stored root; only PostProof and the attestation quorum path can write proof records; reward credit is keyed by the prover of a listed proof record. Cryptographic soundness is trusted.",
          "DESIGN.md §5 C01"),
- "C14": ("commit-path guard analysis (quorum comparison, matched flag, form found), phi-web analysis of the counter and flag, must-pass-through of the form deletion, provenance of form entries",
-         "proof refresh / prover removal / form deletion happen on all paths only behind count >= Param(AttestMinToPass) with direct operands and the signer-matched flag; the counter counts only complete entries; flag and Complete are set only under Eq(entry.Provider, signer); acting paths delete the loaded form; forms are built from the stored active-provider list behind the size check. Distinctness of providers / never-the-prover is not decided.",
+ "C14": ("commit-path guard analysis (quorum comparison, matched flag, form found), phi-web analysis of the counter and flag, must-pass-through of the form deletion, provenance of form entries; term agreement and guard inclusion of the candidate filter (reflexivity)",
+         "proof refresh / prover removal / form deletion happen on all paths only behind count >= Param(AttestMinToPass) with direct operands and the signer-matched flag; the counter counts only complete entries; flag and Complete are set only under Eq(entry.Provider, signer); acting paths delete the loaded form; forms are built from the stored active-provider list behind the size check. Distinctness of providers / never-the-prover is not decided. The candidate filter is reflexive (same key extraction for candidate and requesting prover, candidate shape tests include the prover's), so a form never names the prover it concerns.",
          "DESIGN.md §5 C14"),
  "C17": ("store-effect pairing with must-pass-through path search, field-write census of the prover list, commit-path guard analysis with flag lifting; membership-key vs appended-key term equality; decode-target freshness",
          "single-index file writes/deletes are always paired on all paths with the other index and identical arguments; every prover-list assignment is followed by the matching proof-record update and file save; appends happen only if absent and below the replication limit; proof records copy the file's key fields; file removal deletes listed proofs. History-level equality is not decided. The key tested for membership equals the key appended; records are decoded into variables local to the invocation.",
